@@ -11,8 +11,6 @@ Definition refutes (p : project) : Prop :=
               reach_from_opt p (command_roots p ++ event_roots p) = Some l /\ same_set_b d l = false.
 Ltac witness := split; [vm_compute; reflexivity|]; split; [vm_compute; reflexivity|];
   eexists; eexists; split; [vm_compute; reflexivity|]; split; [vm_compute; reflexivity|]; vm_compute; reflexivity.
-Lemma result_map_refuted : kf_c07_result_map w_result_map = true /\ refutes w_result_map. Proof. witness. Qed.
-Lemma tuple_generic_refuted : kf_c07_tuple_generic w_tuple_generic = true /\ refutes w_tuple_generic. Proof. witness. Qed.
 (* the witnesses of the two repaired defects now satisfy the property *)
 Definition repaired (p : project) : Prop :=
   in_domain p = true /\
@@ -20,6 +18,8 @@ Definition repaired (p : project) : Prop :=
               reach_from_opt p (command_roots p ++ event_roots p) = Some l /\ same_set_b d l = true /\ l <> [].
 Ltac positive := split; [vm_compute; reflexivity|];
   eexists; eexists; split; [vm_compute; reflexivity|]; split; [vm_compute; reflexivity|]; split; [vm_compute; reflexivity|discriminate].
+Lemma result_map_repaired : repaired w_result_map. Proof. positive. Qed.
+Lemma tuple_generic_repaired : repaired w_tuple_generic. Proof. positive. Qed.
 Lemma result_alias_repaired : repaired w_result_alias. Proof. positive. Qed.
 Lemma event_nested_repaired : repaired w_event_nested. Proof. positive. Qed.
 Lemma field_result_refuted : kf_c07_field_result w_field_result = true /\ refutes w_field_result. Proof. witness. Qed.
